@@ -320,19 +320,30 @@ Definition addr_of (ss : list stmt) (k : N) : res N :=
   end.
 
 (* a term of an address expression: a label is its statement's address, a number is signed (F31) *)
-Definition term_value (ss : list stmt) (v : value) : res Z :=
+Definition offset_arith (op : N) (a b : Z) : res Z :=
+  if op =? 43 then Ok (a + b)%Z
+  else if op =? 45 then Ok (a - b)%Z
+  else if op =? 42 then Ok (a * b)%Z
+  else if (b =? 0)%Z then Diag 2 else Ok (Z.quot a b).
+
+(* a term that is itself label arithmetic (an EQU symbol defined by it) is evaluated, not read as 0 (repair F56):
+   NumericValue(result, size_hint=4, mode=EXTENDED) of the nested expression, then its signed value *)
+Fixpoint term_value (ss : list stmt) (v : value) : res Z :=
   match v with
   | VAddr k => do a <- addr_of ss k; Ok (Z.of_N a)
+  | VExpr l op r _ true =>
+      do a <- term_value ss l;
+      do b <- term_value ss r;
+      do z <- offset_arith op a b;
+      do n <- as_translation_error (num_of_Z z (Some 4) MExtended);
+      Ok (if n_neg n then (- Z.of_N (n_int n))%Z else Z.of_N (n_int n))
   | _ => Ok (if v_negative v then (- Z.of_N (v_int v))%Z else Z.of_N (v_int v))
   end.
 
 Definition calc_offset_z (ss : list stmt) (l : value) (op : N) (r : value) : res Z :=
   do a <- term_value ss l;
   do b <- term_value ss r;
-  if op =? 43 then Ok (a + b)%Z
-  else if op =? 45 then Ok (a - b)%Z
-  else if op =? 42 then Ok (a * b)%Z
-  else if (b =? 0)%Z then Diag 2 else Ok (Z.quot a b).
+  offset_arith op a b.
 
 Definition calc_offset (ss : list stmt) (l : value) (op : N) (r : value) : res value :=
   do z <- calc_offset_z ss l op r;
